@@ -1,5 +1,6 @@
 from __future__ import annotations
 
+import hashlib
 import math
 import numbers
 from enum import Enum
@@ -421,8 +422,15 @@ def default_fused_keys_renamer(keys, max_fused_key_length=120):
 
     def _enforce_max_key_limit(key_name):
         if max_fused_key_length and len(key_name) > max_fused_key_length:
-            name_hash = f"{hash(key_name):x}"[:4]
-            key_name = f"{key_name[:max_fused_key_length]}-{name_hash}"
+            # The suffix stands for everything that is cut off, which includes
+            # the token of the last key: it has to tell the fused chains of a
+            # graph apart as reliably as a token does (four digits of the
+            # builtin hash collided for one in some ten thousand pairs).
+            name_hash = hashlib.md5(
+                key_name.encode(errors="surrogatepass"), usedforsecurity=False
+            ).hexdigest()
+            # Keep the cut name within the limit: dash and digest take 33
+            key_name = f"{key_name[:max(max_fused_key_length - 28, 0)]}-{name_hash}"
         return key_name
 
     if typ is str:
